@@ -129,6 +129,13 @@ def setRec (a : EA) (pos : Nat) (r : RecLen) (rec : List UInt8) : Option EA :=
     (writeAt a.buf (pos * r.val) rec).map fun b => { a with buf := b }
   else none
 
+/-- after a resize from `old` bytes the caller writes `fill` into the new records (through the pointer
+`elasticarray_get` gives); nothing is written when the array did not grow.  `none`: outside the contents. -/
+def fillFrom (a : EA) (old : Nat) (fill : List UInt8) : Option EA :=
+  if a.size ≤ old then some a
+  else if old + fill.length ≤ a.size then (writeAt a.buf old fill).map fun b => { a with buf := b }
+  else none
+
 /-- `elasticarray_export(EA, &buf, &nrec, reclen)`: on success the block and the record count are
 handed to the caller and the structure is freed (the block stays allocated: it is the caller's now). -/
 def exportBuf (a : EA) (r : RecLen) (m : Mem) : Option (List UInt8 × Nat) × EA × Mem :=
@@ -152,9 +159,12 @@ def ans (st : St) (a : EA) (m m' : Mem) (out : Option (List UInt8 × Nat)) : EaA
 
 /-- one operation on an existing array, with what the caller observes -/
 def step (a : EA) : EaOp → Mem → EaAns × EA × Mem
-  | .resize n r, m =>
+  | .resize n r fill, m =>
     match resizeRec a n r m with
-    | (true, a', m') => (ans .ok a' m m' none, a', m')
+    | (true, a', m') =>
+      match fillFrom a' a.size fill with
+      | some a'' => (ans .ok a'' m m' none, a'', m')
+      | none => (ans .oob a' m m' none, a', m')
     | (false, a', m') => (ans .fail a' m m' none, a', m')
   | .append data n r, m =>
     match append a data n r m with
